@@ -161,8 +161,15 @@ def _work(arg):
     for old_name in olds:
         w = World(cfg) if False else _base_world(quick)
         w = World.restore(w, cfg)
-        w.step(("API", "add", "a", old_name, False))
-        w.step(("EV", "PRINT_STARTED"))
+        try:
+            w.step(("API", "add", "a", old_name, False))
+            w.step(("EV", "PRINT_STARTED"))
+        except Violation as v:
+            out["n"] += 1
+            if len(out["viol"]) < 3:
+                out["viol"].append(dict(msg="C12 " + v.msg, input=dict(old=old_name, new=old_name, quick=quick, setup=True),
+                                        sig="setup: " + v.msg[:40]))
+            continue
         snap = w.snapshot()
         for new_name in names:
             msg = check_pair(snap, cfg, old_name, new_name)
@@ -227,8 +234,11 @@ def replay_input(payload):
     quick = i["quick"]
     cfg = _cfg(quick)
     w = World(cfg)
-    w.step(("API", "add", "a", i["old"], False))
-    w.step(("EV", "PRINT_STARTED"))
+    try:
+        w.step(("API", "add", "a", i["old"], False))
+        w.step(("EV", "PRINT_STARTED"))
+    except Violation as v:
+        return "C12 " + v.msg
     return check_pair(w.snapshot(), cfg, i["old"], i["new"])
 
 
